@@ -292,6 +292,7 @@ type SDriver struct {
 	Store         *fakes.Store
 	Cons          *fakes.Consumer
 	Disc          *fakes.Discovery
+	RealDisc      stream.VBucketDiscovery // when set, the stream is built on this discovery instead of the fake
 	Hand          *fakes.Handler
 	Stream        stream.Stream
 	stopCh        chan struct{}
@@ -352,7 +353,11 @@ func (d *SDriver) fresh() {
 	if d.SerialVersion {
 		ver = &couchbase.Version{Major: 5, Minor: 4, Patch: 9, Build: 9}
 	}
-	d.Stream = stream.NewStream(d.Client, d.Store, cfg, ver, &couchbase.BucketInfo{}, d.Disc, d.Cons, colls,
+	var disc stream.VBucketDiscovery = d.Disc
+	if d.RealDisc != nil {
+		disc = d.RealDisc
+	}
+	d.Stream = stream.NewStream(d.Client, d.Store, cfg, ver, &couchbase.BucketInfo{}, disc, d.Cons, colls,
 		d.stopCh, d.Hand, tracing.NewTracerComponent())
 }
 
